@@ -11,6 +11,7 @@ import (
 	"pgregory.net/rapid"
 
 	"verifharness/internal/box"
+	"verifharness/internal/gen"
 	"verifharness/internal/pbt"
 	"verifharness/internal/val"
 )
@@ -143,7 +144,7 @@ func (g *hg) literal() Op {
 func (g *hg) step() Op {
 	seqKinds := []string{"list", "vec"}
 	for tries := 0; tries < 6; tries++ {
-		switch c := g.pick("op", 34); {
+		switch c := gen.Uniform(g.t, "op", 34); {
 		case c == 0:
 			return g.literal()
 		case c <= 3:
@@ -182,7 +183,16 @@ func (g *hg) step() Op {
 			}
 		case c == 11:
 			if p, ok := g.parent("map", "set"); ok {
-				return Op{Expr: "(dissoc " + p + " " + g.key() + ")", Kind: g.kindOf(p), Parent: p}
+				// one to three keys, absent ones included (":zz" never exists)
+				keys := []string{}
+				for i, n := 0, 1+g.pick("ndk", 3); i < n; i++ {
+					if g.pick("absent", 3) == 0 {
+						keys = append(keys, ":zz")
+					} else {
+						keys = append(keys, g.key())
+					}
+				}
+				return Op{Expr: "(dissoc " + p + " " + strings.Join(keys, " ") + ")", Kind: g.kindOf(p), Parent: p}
 			}
 		case c == 12:
 			if p, ok := g.parent("vec"); ok {
@@ -247,7 +257,20 @@ func (g *hg) step() Op {
 			}
 		case c == 23:
 			if p, ok := g.parent("vec"); ok {
-				return Op{Expr: fmt.Sprintf("(update %s %d (fn (x) (list x x)))", p, g.pick("ui", 2)), Kind: "vec", Parent: p}
+				switch g.pick("vecin", 6) {
+				case 0:
+					return Op{Expr: fmt.Sprintf("(update %s %d (fn (x) (list x x)))", p, g.pick("ui", 2)), Kind: "vec", Parent: p}
+				case 1: // a path through nested vectors
+					return Op{Expr: fmt.Sprintf("(assoc-in %s [%d %d] %s)", p, g.pick("p0", 2), g.pick("p1", 2), g.item()), Kind: "vec", Parent: p}
+				case 2:
+					return Op{Expr: fmt.Sprintf("(update-in %s [%d %d] (fn (x) (list x)))", p, g.pick("p0", 2), g.pick("p1", 2)), Kind: "vec", Parent: p}
+				case 3: // map -> vector -> element
+					return Op{Expr: fmt.Sprintf("(assoc-in {:rows %s} [:rows %d] %s)", p, g.pick("p0", 2), g.item()), Kind: "map", Parent: p}
+				case 4: // map -> vector -> vector/map
+					return Op{Expr: fmt.Sprintf("(assoc-in {:rows %s} [:rows %d %s] %s)", p, g.pick("p0", 2), rapid.SampledFrom([]string{"0", "1", ":n"}).Draw(g.t, "leafkey"), g.item()), Kind: "map", Parent: p}
+				default:
+					return Op{Expr: fmt.Sprintf("(update-in {:rows %s} [:rows %d] (fn (x) (list x)))", p, g.pick("p0", 2)), Kind: "map", Parent: p}
+				}
 			}
 		case c == 24:
 			if p, ok := g.parent(seqKinds...); ok {
@@ -292,7 +315,9 @@ func (g *hg) step() Op {
 			}
 		case c == 29: // nesting
 			if p, ok := g.parent("list", "vec", "map", "set"); ok {
-				switch g.pick("nest", 3) {
+				switch g.pick("nest", 4) {
+				case 3:
+					return Op{Expr: "[" + p + " " + p + " {:n " + p + "}]", Kind: "vec"}
 				case 0:
 					return Op{Expr: "[" + p + " " + g.item() + "]", Kind: "vec"}
 				case 1:
